@@ -238,4 +238,81 @@ example :
     let r := run C04_cfg0 (fun _ => false) ps { committed := [] }
     wfBody false ps = true ∧ noRbs ps = true ∧ r.1.stale = false ∧ r.1.rbFault = false ∧ r.1.committed = [1] := by decide
 
+
+/-! ### round 2: values pass through unchanged; transactions ended underneath; Statement.ConnPool after a write -/
+
+/-- PANIC PAYLOADS ARE OPAQUE AND UNCHANGED. The payload of a panic is an opaque value (the model never inspects it: `Res.panic`
+    carries only its identity). Whatever the deferred handlers of `Transaction` do (ROLLBACK, ROLLBACK TO, nothing under
+    DisableNestedTransaction) and whatever the oracle does to those calls: when the function of a block panics with payload `p`
+    — raised by the block itself or by a `must` child at any depth below — the block panics with exactly `p`; the manual
+    caller likewise. -/
+theorem C04_panic_payload_unchanged (o : Oracle) (h h1 : Handle) (name : SpName) (out : Out) (tag : Nat) (fin : Fin)
+    (db : DB) (tx : Handle) (r : Res) (p : Nat) (hf : (fnEnd tx r out tag db).2 = .panic p) :
+    (finishRoot o h out tag (db, tx, r)).2.2 = .panic p ∧
+    (finishNested o h1 name out tag (db, tx, r)).2.2 = .panic p ∧
+    (finishDis h out tag (db, tx, r)).2.2 = .panic p ∧
+    (r = .panic p → (finishMan o h fin (db, tx, r)).2.2 = .panic p) := by
+  sorry
+
+/-- … and gorm never invents or converts a panic: a program that ends in a panic ends with the payload of one of ITS OWN
+    `panic` outcomes (every depth, every configuration, every oracle, derived handles, transactions ended underneath) — in
+    particular a panic is never turned into an error return and an error never into a panic -/
+theorem C04_panic_from_program (c : Cfg) (o : Oracle) (ps : List Prog) (h : Handle) (db : DB) (p : Nat)
+    (hr : (runBody c o h ps db).2.2 = .panic p) : p ∈ panicTagsBody ps := by
+  sorry
+
+/-- ERROR VALUES RETURNED BY THE FUNCTION ARE UNCHANGED: the block returns exactly the error value `e` its function returned
+    (own `return err` or the error of a `must` child), whatever happens to the deferred ROLLBACK / ROLLBACK TO -/
+theorem C04_fn_error_unchanged (o : Oracle) (h h1 : Handle) (name : SpName) (out : Out) (tag : Nat)
+    (db : DB) (tx : Handle) (r : Res) (e : Err) (hf : (fnEnd tx r out tag db).2 = .err e) :
+    (finishRoot o h out tag (db, tx, r)).2.2 = .err e ∧
+    (finishNested o h1 name out tag (db, tx, r)).2.2 = .err e ∧
+    (finishDis h out tag (db, tx, r)).2.2 = .err e := by
+  sorry
+
+/-- THE COMMIT ERROR VALUE IS PASSED THROUGH UNCHANGED. When the function of an outermost block returned nil on a clean
+    transaction handle, `Transaction` returns exactly what the driver-level commit returned — nil when COMMIT succeeded, the
+    injected value `[.inj n]` (whatever Go value the fault stands for: sql.ErrTxDone, sql.ErrConnDone, driver.ErrBadConn,
+    context errors … the model cannot tell them apart, so none can be special-cased), `[.txDone]` when the transaction had been
+    ended underneath — and the committed store is the function's working store iff that value is nil. -/
+theorem C04_commit_error_unchanged (o : Oracle) (h : Handle) (out : Out) (tag : Nat) (db : DB) (tx : Handle) (r : Res)
+    (hp : tx.pool.isCommitter = true) (he : tx.err = []) (hok : (fnEnd tx r out tag db).2 = .ok) :
+    (finishRoot o h out tag (db, tx, r)).2.2 = resOf (drvCommit o (fnEnd tx r out tag db).1).2 ∧
+    ((drvCommit o (fnEnd tx r out tag db).1).2 ≠ [] → (finishRoot o h out tag (db, tx, r)).1.committed = db.committed) ∧
+    ((drvCommit o (fnEnd tx r out tag db).1).2 = [] →
+        ∃ t, db.tx = some t ∧ (finishRoot o h out tag (db, tx, r)).1.committed = t.cur) := by
+  sorry
+
+/-- ENDED UNDERNEATH ⇒ NOT NIL: if the transaction is already finished when the function of an outermost block returns
+    (Rollback called inside the block, context cancelled and rolled back by database/sql), `Transaction` does not return nil —
+    it returns sql.ErrTxDone (joined to whatever the handle already carried) — and nothing reaches the committed store. -/
+theorem C04_ended_underneath_not_nil (o : Oracle) (h : Handle) (out : Out) (tag : Nat) (db : DB) (tx : Handle) (r : Res)
+    (hp : tx.pool.isCommitter = true) (hd : db.tx = none) (hok : (fnEnd tx r out tag db).2 = .ok) :
+    (finishRoot o h out tag (db, tx, r)).2.2 = .err (addError tx.err [.txDone]) ∧
+    (finishRoot o h out tag (db, tx, r)).2.2 ≠ .ok ∧
+    (finishRoot o h out tag (db, tx, r)).1.committed = db.committed ∧
+    (finishRoot o h out tag (db, tx, r)).1.tx = none := by
+  sorry
+
+/-- the same seen from a whole program: `db.Transaction(func(tx) { tx.Create(1); tx.Rollback(); return nil })` returns
+    sql.ErrTxDone, row 1 is not durable, nothing leaks (kernel-checked instance; non-vacuity of the two theorems above) -/
+example :
+    let r := run C04_cfg0 (fun _ => false) [.blk [.write (.ins 1) true, .endtx true] .retNil 0 true] { committed := [] }
+    r.2 = .err [.txDone] ∧ r.1.committed = [] ∧ r.1.tx = none := by decide
+
+/-- STATEMENT.CONNPOOL AFTER A WRITE, inside an explicit transaction: the create/update/delete pipeline (BeginTransaction …
+    CommitOrRollbackTransaction) leaves `Statement.ConnPool` of the instance it ran on exactly as it was — so a chained
+    handle kept in a variable stays on the transaction for its next operation (all flag values, all pools). -/
+theorem C04_write_keeps_tx_pool (skip errNil beginOk : Bool) (s : OpSt)
+    (hc : s.stmtPool.isCommitter = true) (hs : s.started = false) :
+    writeSt skip errNil beginOk s = s := by
+  sorry
+
+/-- … and outside a transaction, where `Statement.ConnPool` is the handle's own pool, it is put back there (the implicit
+    transaction does not leak into the next operation through the handle) -/
+theorem C04_write_restores_pool (skip errNil beginOk : Bool) (s : OpSt)
+    (hc : s.stmtPool.isCommitter = false) (heq : s.stmtPool = s.cfgPool) (hs : s.started = false) :
+    writeSt skip errNil beginOk s = s := by
+  sorry
+
 end Gorm
